@@ -174,6 +174,9 @@ static void p0_run(uint64_t idx, vh_rng_t * rng) {
         { char * big = (char *) malloc(fill); memset(big, 'A', fill); vh_input(v, big, fill); free(big); }
     }
     if (zero_flush) vh_input(v, NULL, 0);
+    /* a deferred result: the application writes a result item (and its own terminator) outside any command callback, between two messages -
+     * the result writers are public and the library's own tests use them that way */
+    if (idx % 16 == 9) { SCPI_ResultInt32(v->ctx, 5); if (vh_chance(rng, 1, 2)) SCPI_ResultText(v->ctx, "late"); vh_count("history.result_written_outside_a_command", 1); }
     /* the application may initialise the same context object and buffers again: then NOTHING of A is left, not even status and errors */
     if (idx % 8 == 5) { vh_ctx_reinit(v); v->sigs = sigs; v->nsigs = NSIG; reinit = 1; }
     vh_ctx_clear_capture(v);
@@ -294,6 +297,6 @@ int main(int argc, char ** argv) {
     static const vh_phase_t phases[] = { { "pairs", p0_count, p0_run }, { "units within one message", p1_count, p1_run } };
     vh_scribble_chunk_in_callbacks(1); vh_decoy_enable(7); vh_require("decoy.messages_run_on_a_second_context"); vh_require("pairs.direct_line_parse_same_length"); vh_require("unit.X_raises_errors"); vh_require("unit.block_data_without_header_after_unfinished_block"); vh_require("unit.both_units_raise_errors");
     vh_require("A.sequence_of_messages"); vh_require("A.raises_errors"); vh_require("A.leaves_block_unfinished_or_overlong"); vh_require("A.ends_with_compound_path");
-    vh_require("A.overrun_with_pending_bytes"); vh_require("pairs.line_parsed_directly_between_two_pieces_of_B"); vh_require("pairs.context_initialised_again_between_A_and_B"); vh_require("pairs.A_ran_the_later_of_two_overlapping_entries_B_is_accepted_by_both"); vh_require("A.overrun_with_pending_complete_units"); vh_require("B.uses_relative_header"); vh_require("B.responds"); vh_require("A.responds"); vh_require("B.block_data_without_header_after_unfinished_block");
+    vh_require("A.overrun_with_pending_bytes"); vh_require("history.result_written_outside_a_command"); vh_require("pairs.line_parsed_directly_between_two_pieces_of_B"); vh_require("pairs.context_initialised_again_between_A_and_B"); vh_require("pairs.A_ran_the_later_of_two_overlapping_entries_B_is_accepted_by_both"); vh_require("A.overrun_with_pending_complete_units"); vh_require("B.uses_relative_header"); vh_require("B.responds"); vh_require("A.responds"); vh_require("B.block_data_without_header_after_unfinished_block");
     return vh_main(argc, argv, "C09", phases, 2);
 }
